@@ -114,6 +114,9 @@ class TraceColumn(object):
                         pass
                     else:
                         if trdat is not None and trdat.size != 0:
+                            # the traces are handed out to the user
+                            trdat = np.asarray(trdat).view()
+                            trdat.setflags(write=False)
                             # Split the input trace data into equally-spaced
                             # sections (we already tested that sampleids is
                             # equally-spaced).
